@@ -5,10 +5,12 @@ PROP = {
     "theorems": [
         "Mps.C06.msg_hash_input_injective", "Mps.C06.echo_hash_agree", "Mps.C06.leaves_round_only_if_echo_ok",
         "Mps.C06.echo_agreement", "Mps.C06.runs_are_reachable",
+    
+        "Mps.C06Byz.byz_delivery_iff", "Mps.C06Byz.stored_under_honest_name_was_emitted", "Mps.C06Byz.honest_views_agree", "Mps.C06Byz.equivocation_cannot_split", "Mps.C06Byz.no_split_completion",
     ],
     "generated": ["Mps.C06.gen_message_hash", "Mps.C06.gen_echo"],
     "suites": [{"name": "handler", "quick": 400, "thorough": 12000}],
     "propfields": {"handler": ["ok", "term", "closed"]},
-    "level_text": "Proof: for ALL scripts and EVERY state two handlers of one session can pass through (including inside a call), if A passes the echo check of round r+1 holding a round-(r+1) message stamped by B, then A and B hold byte-identical copies of every participant's round-r broadcast, or the runs exhibit an explicit hash collision (echo_agreement); a round is left only after that check (leaves_round_only_if_echo_ok); Message.Hash covers every wire field (msg_hash_input_injective). Invariants (stored echo hash = hash of stored view; every emitted message stamped with the sender's own echo hash) are proved over all elementary transitions of the handler model. Tied to the code by the regenerated Message.Hash item list, receivedAll / checkBroadcastHash / finalize call and range tables, by bit-exact comparison of every emitted BroadcastVerification with the model under equivocation schedules, and by a model-independent judgement of the observed views of completed honest parties.",
+    "level_text": "Proof: for ALL scripts and EVERY state two handlers of one session can pass through (including inside a call), if A passes the echo check of round r+1 holding a round-(r+1) message stamped by B, then A and B hold byte-identical copies of every participant's round-r broadcast, or the runs exhibit an explicit hash collision (echo_agreement); a round is left only after that check (leaves_round_only_if_echo_ok); Message.Hash covers every wire field (msg_hash_input_injective). Invariants (stored echo hash = hash of stored view; every emitted message stamped with the sender's own echo hash) are proved over all elementary transitions of the handler model. Tied to the code by the regenerated Message.Hash item list, receivedAll / checkBroadcastHash / finalize call and range tables, by bit-exact comparison of every emitted BroadcastVerification with the model under equivocation schedules, and by a model-independent judgement of the observed views of completed honest parties. System level, one Byzantine participant (Mps/Byz.lean, MpsProofs/Byz.lean): for every H with bounded output, every session script (SessionOk, SizesOk), every cheater id and every Byzantine schedule - the cheater's messages arbitrary (wire-representable), honest traffic in any order with repetition and delay, authenticated channels - an honest party that is past the round after a broadcast round r holds byte-identical copies of every participant's round-r broadcast as every other honest party, or H collides on two stated inputs (honest_views_agree, equivocation_cannot_split); two honest parties holding different round-r payloads from one sender never complete (no_split_completion). A concrete equivocation schedule, decided by the kernel, ends in echoMismatch at both honest parties.",
     "level_note": "Holds for a broadcast round r whose successor has number r+1 inside the handler's round window (the hash is looked up under number-1): for a numbering jump (presign online 1 -> 8) or a successor beyond FinalRoundNumber there is no echo protection - reported under C04/C05 where it matters. Real protocols are covered through the scripted instance + sampled real sessions in C03.",
 }
